@@ -30,7 +30,9 @@ Derived  = material objects are reused: m is looked at and used in a calculator,
 Sweeps   = single calls (all weights, densities, wavelength forms) over two further material alphabets: every
          energy-dependent atom of the library (element and isotope forms, neutral and 3+ ion) as the only tabulated atom
          of a material and of a list, and as one of two; materials with fractional or very large atom counts in every
-         position of lists of 1..3."""
+         position of lists of 1..3; the SCALE of the weights and of the density: base weight vectors times factors
+         1e-15 .. 1e12, densities 1e-12 .. 1e3 - the answer is that of the direct route on the same scaled sum, of the shape
+         of the wavelength argument, and only an exactly zero weight sum or density is a vacuum."""
 import copy
 import itertools
 import math
@@ -84,7 +86,13 @@ META = dict(
           "every unordered pair inside one material [XY3], [XY3, H2O]; (b) materials whose atoms per formula unit are not "
           "a whole number (Fe0.947O, Ce0.9Gd0.1O1.95, H0.5 with a total below one, Ni0.7Cu0.2Zn0.1 whose total is "
           "0.9999999999999999) or exceed 32 bits (C4294967297H8589934596): all lists of length 1..2 over these five and "
-          "H2O, Gd2O3, Au, and all lists of length 3 over the first three, H2O and Gd2O3, that contain at least one of them"),
+          "H2O, Gd2O3, Au, and all lists of length 3 over the first three, H2O and Gd2O3, that contain at least one of them; "
+          "(c) SCALE of the weights and of the density (signatures 'scale:...'): 9 lists of 1..3 materials (constant, "
+          "energy-dependent, negative-b, sigma_i clipped) x every base vector of {0, 0.5, 3}^n (a weight exactly 0 among "
+          "positive ones, and the all-zero vector) x factor k of {1e-15, 1e-11, 1e-6, 1, 1e6, 1e12} x density of {0, 1e-12, "
+          "1e-6, 1, 1e3} x all nine wavelength forms: calc(k*base, rho) against the direct route on sum_i k*base_i*material_i "
+          "at rho with the same relative tolerances (no absolute term), every output of the shape of the wavelength "
+          "argument; a vacuum (zeros) exactly when the weight sum or the density is exactly zero; non-trivial = both positive"),
     bound=dict(
         quick="all 156 lists of length 1..2 and the 408 lists of length 3 in which a material is repeated; 4^n weight "
               "vectors; 3 densities; wavelength forms default, float, "
@@ -98,7 +106,8 @@ META = dict(
               "forms {default, float, length-1 / length-4 / length-n array, length-4 list} x 4-6 edits x 2 timings x all "
               "states.  Derived materials: 1320 histories + 528 controls.  Sweeps: 15 energy-dependent atoms x {neutral, "
               "3+} -> 285 lists with one tabulated atom, 420 lists with two; 177 lists with fractional / large counts; "
-              "all nine wavelength forms, all weights and densities",
+              "all nine wavelength forms, all weights and densities; 9 scale lists x (3^n - 1) x 6 factors x 5 densities "
+              "(+ 5 all-zero states) x nine forms = 30195 single calls, 23328 of them not a vacuum",
         thorough="all 1884 lists of length 1..3; 4^n weight vectors; 3 densities; the same nine wavelength forms.  "
                  "Histories: every list of length 1..2 with all states and all nine forms; lists of 3 over the 6 "
                  "materials above with weights {0, 1, 3}^3 x density {1, 2.5} (2916 ordered pairs), all nine forms.  Call series: "
@@ -135,6 +144,11 @@ META = dict(
         "sweeps: counts up to 2^33 (exactly representable; a polymer), not beyond 2^53; ions of the energy-dependent atoms "
         "are the 3+ ions (every such element lists charge 3); the sweeps make single calls only (histories do not depend on "
         "which atoms a material is made of beyond what the history materials already cover)",
+        "scale sweep: the factors stop at 1e-15 and 1e12 and the densities at 1e-12 and 1e3 (sum w_i*M_i*rho stays "
+        "between 1e-27 and 1e18, far from under- and overflow: what the calculator does with denormal products is not in "
+        "the statement); one common factor for all weights of a call (ratios between weights stay those of {0, 0.5, 3}); "
+        "single calls only; the direct route on the scaled sum is trusted to be scale invariant itself (C03), the check "
+        "does not compare calc(k*w) with calc(w)",
         "histories longer than two calls are covered as they occur inside the walks (each call is judged, but "
         "not every triple of states occurs) and exhaustively up to three calls over the 3-4 arguments of the call series; private tables are not in the alphabet (the calculator has no table= "
         "argument; per-table data is C10 / C20)",
@@ -1238,7 +1252,62 @@ def sweep_lists():
         out += [("fractional-counts", t) for t in itertools.product(alpha, repeat=n) if set(t) & set(FRACTIONAL)]
     alpha3 = FRACTIONAL[:3] + FRACTIONAL_PARTNERS[:2]
     out += [("fractional-counts", t) for t in itertools.product(alpha3, repeat=3) if set(t) & set(FRACTIONAL)]
+    out += [(SCALE_CLASS, t) for t in SCALE_LISTS]
     return out
+
+
+# (c) SCALE OF THE WEIGHTS AND OF THE DENSITY: the SLD of sum_i w_i*material_i at density rho does not depend on the overall
+#     scale of the weights (mole amounts of a nanogram sample, ~1e-11, or of a tonne) and is proportional to rho however
+#     small; ONLY an exactly zero weight sum or an exactly zero density is a vacuum.  Every base vector over {0, 0.5, 3}^n
+#     (a weight that is exactly 0 among positive ones included) x every factor x every density x every wavelength form,
+#     each single call judged against the direct route on the same scaled weighted sum (relative tolerances only).
+SCALE_CLASS = "weight-and-density-scale"
+SCALE_LISTS = (("H2O",), ("Gd2O3",), ("Lu[176]",), ("H2O", "D2O"), ("Gd2O3", "H2O"), ("Ti", "Sm[149]O"), ("Au", "V"),
+               ("H2O", "D2O", "Gd2O3"), ("B4C", "Lu[176]", "Ti"))
+SCALE_BASE = (0, 0.5, 3)
+SCALE_FACTORS = (1e-15, 1e-11, 1e-6, 1, 1e6, 1e12)
+SCALE_DENSITIES = (0, 1e-12, 1e-6, 1, 1e3)
+
+
+def scale_check(lc, acc, base, k, density):
+    """One call with the weights k*base at this density on a fresh array.  False after a violation."""
+    weights = tuple(k * b for b in base)
+    acc.states += 1
+    acc.transitions += 1
+    acc.evaluations += 2
+    w = np.array(weights, dtype=float)
+    case = lc.case(weights, density)
+    case["scale"] = [[float(b) for b in base], k]
+    snip = lambda: _snippet(lc.E, lc.mats, weights, density, lc.form)
+    racc = _Renamed(acc, "scale:")
+    got = lc.call(racc, w, density, case, snip)
+    if got is None:
+        return False
+    rec = lc.expect(weights, density)
+    if not rec["vacuum"]:
+        acc.nontrivial += 1
+        if all(np.all(np.asarray(g) == 0) for g in got) and np.any(rec["sc_re"] > 0):
+            # the answer for a vacuum although neither the weight sum nor the density is zero
+            small = "small-weights" if k < 1 else "small-density" if density < 1 else "ordinary-magnitudes"
+            acc.violation("scale:vacuum-for-positive-weights-and-density:%s:%s" % (small, lc.kind), case,
+                          expected=None if rec["exp"] is None else [e.tolist() for e in rec["exp"]],
+                          observed=[np.asarray(g).tolist() for g in got], standalone=snip(),
+                          detail="sum_i w_i*M_i = %r, density = %r: both positive" %
+                                 (sum(wi * m for wi, m in zip(weights, lc.mass)), density))
+            return False
+    return lc.judge(racc, got, rec, case, snip)
+
+
+def scale_sweep(lc, acc):
+    n = len(lc.mats)
+    for base in itertools.product(SCALE_BASE, repeat=n):
+        for k in SCALE_FACTORS:
+            if k != 1 and not any(base):
+                continue                            # k*(0, .., 0) is the same vector for every k
+            for density in SCALE_DENSITIES:
+                if not scale_check(lc, acc, base, k, density):
+                    return False
+    return True
 
 
 def sweep_list(E, acc, cls, texts, forms):
@@ -1259,13 +1328,16 @@ def sweep_list(E, acc, cls, texts, forms):
         if not lc.build(acc):
             continue
         ok = True
-        for weights in itertools.product(WEIGHTS, repeat=n):
-            for density in DENSITIES:
-                if not lc.check(acc, weights, density):
-                    ok = False
+        if cls == SCALE_CLASS:
+            ok = scale_sweep(lc, acc)
+        else:
+            for weights in itertools.product(WEIGHTS, repeat=n):
+                for density in DENSITIES:
+                    if not lc.check(acc, weights, density):
+                        ok = False
+                        break
+                if not ok:
                     break
-            if not ok:
-                break
         if ok:
             lc.arguments_intact(acc, lc._mats, lc._wl_before, "calls")
             acc.outcome("sweep:%s:%s:ok" % (cls, lc.kind))
